@@ -52,6 +52,7 @@ def C(v):
 
 
 TRUE, FALSE = C(1), C(0)
+OPT_NONE, OPT_ABSENT = 255, 254       # encoding of Optional[int] values ('optint') and of a missing dict entry
 
 
 class ObjSpec:
@@ -110,6 +111,8 @@ class Compiler:
 
   def local(self, name, ty, init=0):
     full = self.scope + name
+    if ty == 'optint':
+      ty = 'int'
     if full not in self.P.locals:
       self.P.locals[full] = (ty, init)
       if ty == 'exc':
@@ -308,6 +311,16 @@ class Compiler:
           self.err(node, f'assigning {v.ty} to field {f}')
         self.P.emit('set', line, dst=('g', spec.name, f), e=v.c['e'])
       return
+    if isinstance(target, ast.Subscript):
+      base = self.expr(target.value)
+      if base.ty == 'prim' and base.c['kind'] == 'dict1':
+        spec = self.objects[base.c['owner']]
+        key = self.expr(target.slice)
+        if key.ty != 'str' or key.c['s'] != spec.prims[base.c['attr']][2]:
+          self.err(node, f'dict store with a key other than the modelled one: {key}')
+        ve = C(OPT_NONE) if v.ty == 'none' else v.c['e'] if v.ty in ('int', 'bool', 'optint') else self.err(node, f'dict store of {v.ty}')
+        self.P.emit('set', line, dst=('g', spec.name, base.c['id']), e=ve)
+        return
     self.err(node, f'assignment target {type(target).__name__}')
 
   def obj_index(self, oname):
@@ -749,7 +762,8 @@ class Compiler:
       other = b if a.ty == 'none' else a
       isnone = FALSE if other.ty in ('obj', 'prim', 'iter', 'int', 'bool', 'list', 'str') else \
           ('op', '==', other.c['kind'], C(K_NONE)) if other.ty == 'exc' else \
-          ('op', '==', other.c['e'], C(0)) if other.ty == 'ref' else TRUE if other.ty == 'none' else None
+          ('op', '==', other.c['e'], C(0)) if other.ty == 'ref' else TRUE if other.ty == 'none' else \
+          ('op', '==', other.c['e'], C(OPT_NONE)) if other.ty == 'optint' else None
       if isnone is None:
         self.err(node, f'None comparison with {other.ty}')
       return isnone if isinstance(op, (ast.Is, ast.Eq)) else ('not', isnone)
@@ -762,7 +776,9 @@ class Compiler:
       eb = C(self.obj_index(b.c['obj'])) if b.ty == 'obj' else b.c['e']
       t = ('op', '==', ea, eb)
       return t if isinstance(op, ast.Is) else ('not', t)
-    if a.ty in ('int', 'bool') and b.ty in ('int', 'bool'):
+    if a.ty in ('int', 'bool', 'optint') and b.ty in ('int', 'bool', 'optint'):
+      if (a.ty == 'optint' or b.ty == 'optint') and not isinstance(op, (ast.Eq, ast.NotEq)):
+        self.err(node, 'ordering comparison of an Optional[int]')       # None == 0 is False, like the encoding; None < 0 raises
       o = {ast.Eq: '==', ast.NotEq: '!=', ast.Lt: '<', ast.LtE: '<=', ast.Gt: '>', ast.GtE: '>=', ast.Is: '==', ast.IsNot: '!='}.get(type(op))
       if o is None:
         self.err(node, 'comparison operator')
@@ -800,7 +816,7 @@ class Compiler:
     spec = self.objects[base.c['obj']]
     if a in spec.prims:
       kind, pid = spec.prims[a][0], spec.prims[a][1]
-      extra = {'lock': spec.prims[a][2]} if kind == 'cond' else {}
+      extra = {'lock': spec.prims[a][2]} if kind == 'cond' else {'attr': a} if kind == 'dict1' else {}
       return Val('prim', kind=kind, id=pid, owner=spec.name, **extra)
     if a in spec.consts:
       cv = spec.consts[a]
@@ -868,6 +884,15 @@ class Compiler:
         self.err(e, f'len of {v.ty}')
       if n in ('min', 'max') and len(e.args) == 2:
         a, b = self.expr(e.args[0]), self.expr(e.args[1])
+        for x in (a, b):
+          if x.ty == 'optint':
+            lr, lo = self.P.label('optnone'), self.P.label('optok')
+            self.P.emit('br', e.lineno, e=('op', '==', x.c['e'], C(OPT_NONE)), t=lr, f=lo)
+            self.P.place(lr)
+            self.do_raise(Val('exc', kind=C(K_RUNTIME), val=C(0)), e)      # TypeError: '>' not supported between NoneType and int
+            self.P.place(lo)
+          elif x.ty not in ('int', 'bool'):
+            self.err(e, f'{n} of {x.ty}')
         return Val('int', e=('op', n, a.c['e'], b.c['e']))
       if n == 'next':
         return self.call_next(self.expr(e.args[0]), e)
@@ -1096,6 +1121,18 @@ class Compiler:
         self.P.emit('retadd', line, obj=t.c['obj'], field=t.c['field'], val=v.c['v'])
         return Val('none')
       self.err(e, f'retset.extend({v.ty})')
+    if t.ty == 'prim' and t.c['kind'] == 'dict1':
+      # a dict that is only ever used with ONE constant key: a single Optional[int] slot (OPT_ABSENT = no entry)
+      spec = self.objects[t.c['owner']]
+      key = args[0] if args else None
+      if key is None or key.ty != 'str' or key.c['s'] != spec.prims[t.c['attr']][2]:
+        self.err(e, f'dict access with a key other than the modelled one: {key}')
+      if name != 'get':
+        self.err(e, f'dict.{name}')
+      d = args[1] if len(args) > 1 else Val('none')
+      de = C(OPT_NONE) if d.ty == 'none' else d.c['e'] if d.ty in ('int', 'bool', 'optint') else self.err(e, f'dict.get default {d.ty}')
+      cur = self.rd(t.c['owner'], t.c['id'], e)
+      return Val('optint', e=('ite', ('op', '==', cur, C(OPT_ABSENT)), de, cur))
     if t.ty == 'prim':
       k = t.c['kind']
       if k in ('lock', 'rlock', 'cond'):
